@@ -556,7 +556,14 @@ def parser_siblings(rep, u):
             best = diff
             if not sum(diff.values()) - sum(v for k_, v in diff.items() if "sa_port_set(" in k_):
                 break
-    rest = [k_ for k_ in best if not ("sa_port_set(" in k_ and k_.rstrip(")").endswith(",0"))]
+    import re as _re
+
+    def port_only(k_):
+        """the statement passes port 0 to a routine that the port flavour calls too (with its parsed port): sa_port_set in the
+        duplicated layout, the shared address-text helper in the factored one"""
+        m_ = _re.match(r"^(?:return\s+)?(\w+)\(.*,\s*0\)$", k_)
+        return bool(m_) and any((m_.group(1) + "(") in kk for kk in kb)
+    rest = [k_ for k_ in best if not port_only(k_)]
     desc = ("every statement of sa_addr_from_str (trimming of blanks and brackets, bounded copy, inet_pton over the family list, "
             "AF_UNIX fallback) occurs in sa_addr_port_from_str up to the names of locals; only the port argument differs")
     if rest:
@@ -686,6 +693,10 @@ def run(rep, tier):
     rep.floor("status-returning calls in socket_address.c", nerr, 6)
     rep.floor("prefix text cases", prefix_passthrough(rep, unu), 16)
     rep.floor("numeric fields of the text parsers", strict_number_rule(rep, us), 2)
+    from props import c18_audit
+    rep.floor("bracket parsers", c18_audit.bracket_tail_rule(rep, usa), 2)
+    c18_audit.whole_first_rule(rep, usa)
+    rep.floor("address text copies", c18_audit.nul_rule(rep, usa), 1)
     nwf = nacc = 0
     for lab, u in us.items():
         fns_ = [f for f in u.function_list if f.relfile() == lab]
